@@ -531,7 +531,32 @@ namespace Givaro {
 
         if (this->areEqual(n,8))
             return this->init(A,2);
-        return prim_base(A, n);
+        // an element of maximal orbit size: modulo p^e it is a primitive root (period lambda_inv(p^e)) or the nilpotent p
+        // (e-1 terms, then 0); the best choice of the nilpotent components is found as in lambda()
+        std::vector<Rep> Lp; std::vector<uint64_t> Le;
+        Father_t::set(Lp, Le, n);
+        const size_t nbf = Lp.size();
+        uint64_t bestmask = 0; Rep best(0), cyc, tmp;
+        for (uint64_t mask = 0; mask < (uint64_t(1) << nbf); ++mask) {
+            uint64_t tail = 0; cyc = this->one;
+            for (size_t i = 0; i < nbf; ++i) {
+                if ((mask >> i) & 1U) { if (Le[i]-1 > tail) tail = Le[i]-1; }
+                else this->lcmin(cyc, lambda_inv_primpow(tmp, Lp[i], Le[i]));
+            }
+            cyc += tail;
+            if (cyc > best) { best = cyc; bestmask = mask; }
+        }
+        if (bestmask == 0) return prim_base(A, n);
+        std::vector<Rep> Pe(nbf), Ra(nbf);
+        for (size_t i = 0; i < nbf; ++i) {
+            dom_power(Pe[i], Lp[i], (long)Le[i], *this);
+            if ((bestmask >> i) & 1U) Ra[i] = Lp[i];
+            else if (this->areEqual(Lp[i],2)) this->init(Ra[i], (Le[i] == 1) ? 1 : 3);
+            else prim_root(Ra[i], Pe[i]);
+        }
+        IntRNSsystem<std::vector, std::allocator > RNs( Pe );
+        RNs.RnsToRing( A, Ra );
+        return A;
     }
 
     template<class MyRandIter>
@@ -616,7 +641,22 @@ namespace Givaro {
             return this->init(z,2);
         if (this->areEqual(m,8) )
             return this->init(z,3);
-        return lambda_base(z, m);
+        // maximal orbit size over ALL elements: modulo each p^e an element is a unit (period lambda_inv(p^e)) or nilpotent
+        // (e-1 terms, then 0): lambda(m) = max over the sets S of nilpotent components of (max_S (e-1)) + lcm_{not S} lambda_inv(p^e)
+        std::vector<Rep> Lp; std::vector<uint64_t> Le;
+        Father_t::set(Lp, Le, m);
+        const size_t nbf = Lp.size();
+        Rep cyc, tmp; z = this->zero;
+        for (uint64_t mask = 0; mask < (uint64_t(1) << nbf); ++mask) {
+            uint64_t tail = 0; cyc = this->one;
+            for (size_t i = 0; i < nbf; ++i) {
+                if ((mask >> i) & 1U) { if (Le[i]-1 > tail) tail = Le[i]-1; }
+                else this->lcmin(cyc, lambda_inv_primpow(tmp, Lp[i], Le[i]));
+            }
+            cyc += tail;
+            if (cyc > z) z = cyc;
+        }
+        return z;
     }
 
 
